@@ -10,6 +10,12 @@ CHECKS = {
   text="All AddRule/RemRule/AddFact-over-rule-id/EnableRule/Clear/ProcessEvent sequences up to depth 3 (quick) / 4 (thorough) over two rule ids and 15 when-patterns chosen to reach every PatternIndex node kind, on indexed and linear state with and without a parent location; in every reached canonical state all 12 events are dispatched and the dispatched set, bindings, dispositions and SearchRules candidates are compared with a reference model. Additionally every (when, event) pair of a bounded JSON grammar is run on a fresh index and fresh locations.",
   note="Trusts core.Matches as the definition of a match (C05), explicit {when:{pattern}} rule form, the L1 rewriter. Histories behind a state-diverging violation are not expanded.",
   design="2/C01"),
+ "C03": dict(
+  engine="GEN",
+  technique="bounded-exhaustive enumeration of query trees x fact subsets x topologies on the real query evaluator against a reference evaluator (multiset equality)",
+  text="Every query tree up to depth 2 (quick; depth 3 over a reduced pool in thorough) built from 12 leaves (empty, four patterns sharing variables, seven code templates) with and/or/or+shortCircuit of arity 0..2 and not, is evaluated on every subset of a 4-fact universe, with the facts local or split between the location and its parent, by Location.Query and, wrapped as a rule condition, by ProcessEvent; results (or the error) are compared as multisets with a 60-line reference evaluator written from the property statement.",
+  note="Trusts core.Matches for fact matching (C05) and the native evaluation of the seven code templates in the reference. Bounded tree depth/arity.",
+  design="2/C03"),
  "C05": dict(
   engine="GEN",
   technique="bounded-exhaustive enumeration of (pattern, datum, bindings) triples x owned map-iteration orders on the real matcher against an independent reference matcher",
